@@ -103,10 +103,10 @@ def dominated(chk, P, fname, unit, targets, fact, rule, what, min_inst=1, track_
     return n
 
 
-def unreachable_under(chk, P, fname, unit, envs, callee, rule, construct, detail, split=None):
+def unreachable_under(chk, P, fname, unit, envs, callee, rule, construct, detail, split=None, only=None):
     """no call of `callee` is reachable from function fname -- in fname itself or in a helper it calls -- under any of the
     seeded environments (seeded constant propagation over the CFG; only the seeded keys are tracked, every other test is
-    explored both ways; seeded object fields travel into helpers)"""
+    explored both ways; seeded object fields travel into helpers); `only(call)` restricts the direct calls that count"""
     import peval
     f = P.need_func(fname, unit)
     # targets: calls of `callee` in fname, or of a helper of the same unit (not fname itself: recursion on other objects) that
@@ -126,7 +126,7 @@ def unreachable_under(chk, P, fname, unit, envs, callee, rule, construct, detail
         g2 = P.func(c.get("fn")) if c.get("fn") else None
         if g2 is not None and g2.entry is not None and g2.name != f.name and g2.unit is f.unit and reaches(g2, {g2.name}):
             tnames.add(g2.name)
-    targets = set(c["id"] for c in f.calls(tuple(tnames)))
+    targets = set(c["id"] for c in f.calls(tuple(tnames)) if only is None or c.get("fn") != callee or only(c))
     if not chk.need(bool(targets), "%s: %s no longer reaches a call of %s" % (rule, fname, callee)):
         return 0
     hit = []
